@@ -90,8 +90,35 @@ def judge_header(exp_header, got_header, widths):
     return None
 
 
+def run_js_route(sh, res):
+    """rbql-js header (and records) for the language-neutral select lists, judged by the same naming rule"""
+    sp_ = space(sh['tier'], sh['seed'])
+    cases = []
+    for q, hdr, join in sp_['cases'][sh['lo']:sh['hi']]:
+        if q['kind'] == 'select' and any(refql.strip_alias(it)[0] in ('call', 'tuple') or (it[0] == 'list' and q.get('distinct')) for it in q.get('items', [])):
+            continue
+        cases.append((q, sp_['tables'][0], (sp_['B'] if join else None), (sp_['names'] if hdr else None), (sp_['bnames'] if (hdr and join) else None)))
+        if join:
+            cases.append((q, sp_['tables'][0], sp_['Bwide'], (sp_['names'] if hdr else None), (sp_['bnames_wide'] if hdr else None)))
+    if sh['lo'] == 0:
+        # column names with quote characters and backslashes through both subscript quote styles
+        nasty = ["driver's name", 'say "hi"', 'back\\slash']
+        for n_ in nasty:
+            for st in ('dq', 'sq'):
+                for other in (('f', 'a', 2), ('alias', ('f', 'a', 1), 'x', 'AS')):
+                    q = {'kind': 'select', 'items': [('named', 'a', n_, st), other], 'where': None, 'order': None, 'distinct': None, 'top': None, 'group': None, 'join': None}
+                    cases.append((q, sp_['tables'][0], None, nasty, None))
+    n = qcheck.run_js_cases(res, cases, lambda q, A, B, exp, got, why: 'header-mismatch' if 'header' in why else 'js-mismatch')
+    res.states += n
+    res.transitions += n
+    res.nontrivial += res.features.get('js_nonempty_agree', 0)
+
+
 def run_shard(sh):
     res = core.Result()
+    if sh['route'] == 'js':
+        run_js_route(sh, res)
+        return res
     sp_ = space(sh['tier'], sh['seed'])
     route = sh['route']
     scratch = None
@@ -226,7 +253,7 @@ def main(tier, seed):
     sp_ = space(tier, seed)
     n = len(sp_['cases'])
     shards = []
-    for route, parts in (('table', 64), ('csv', 32), ('pandas', 32)):
+    for route, parts in (('table', 64), ('csv', 32), ('pandas', 32), ('js', 16)):
         for lo, hi in core.chunks(n, parts):
             shards.append({'tier': tier, 'seed': seed, 'route': route, 'lo': lo, 'hi': hi})
     res = core.run_shards('vf.checks.c07', shards)
@@ -235,7 +262,7 @@ def main(tier, seed):
              'each observed through query_table (3 tables), query_csv (file to file) and query_pandas_dataframe; non-trivial = a header is expected',
         assumptions=['the name of the DISTINCT COUNT count column is left free (only its presence is required)', 'naming rule as stated in the property: alias; source column name for field / star forms; identifier for bare variables; colK otherwise'],
         extra={'cases': n, 'item_bound': 3 if tier == 'thorough' else 2},
-        min_features={'colK_names': 500, 'star_expansions': 500, 'no_header_expected': 200, 'star_alias_noheader': 10})
+        min_features={'colK_names': 500, 'star_expansions': 500, 'no_header_expected': 200, 'star_alias_noheader': 10, 'js_cases': 1000})
 
 
 def replay(rep):
